@@ -43,6 +43,16 @@ from vsc.visitors.model_pretty_printer import ModelPrettyPrinter
 from vsc.visitors.expr2field_visitor import Expr2FieldVisitor
 
 
+class _HasUnaryVisitor(ModelVisitor):
+    
+    def has(self, e):
+        self.found = False
+        e.accept(self)
+        return self.found
+    
+    def visit_expr_unary(self, e):
+        self.found = True
+
 class VariableBoundVisitor(ModelVisitor):
     """Establishes bounds for each variable based on constraints"""
     
@@ -257,6 +267,10 @@ class VariableBoundVisitor(ModelVisitor):
             val = int(e.val())
             width = max(int(fm.width), int(e.width()))
         except Exception:
+            return False
+        if _HasUnaryVisitor().has(e):
+            # The value of '~x' depends on the width of the expression 
+            # around it, which val() does not know
             return False
         if fm.is_signed and e_signed:
             # Signed comparison: the value must not have wrapped
